@@ -19,6 +19,12 @@ pub trait Payload: PartialEq + std::fmt::Debug + Sized + 'static {
     fn serial(&self) -> u64 {
         0
     }
+    /// destructor runs are recorded in DROP_LOG
+    const TRACKED: bool = false;
+    /// serde round trip of an arena of this payload type, and whether copy == original and re-serialises alike
+    fn round_trip(_a: &Arena<Self>) -> Option<(Arena<Self>, bool)> {
+        None
+    }
 }
 
 impl Payload for u32 {
@@ -28,6 +34,13 @@ impl Payload for u32 {
     fn tok(&self) -> u32 {
         *self
     }
+    #[cfg(feature = "it_deser")]
+    fn round_trip(a: &Arena<Self>) -> Option<(Arena<Self>, bool)> {
+        let s = serde_json::to_string(a).ok()?;
+        let c: Arena<u32> = serde_json::from_str(&s).ok()?;
+        let eq = c == *a && serde_json::to_string(&c).ok()? == s;
+        Some((c, eq))
+    }
 }
 
 thread_local! {
@@ -35,7 +48,7 @@ thread_local! {
     static SERIAL: RefCell<u64> = const { RefCell::new(0) };
 }
 
-/// A payload with identity and an observable destructor (C08). Deliberately not `Clone`.
+/// A payload with identity and an observable destructor (C08).
 #[derive(Debug)]
 pub struct Tracked {
     pub tok: u32,
@@ -44,6 +57,12 @@ pub struct Tracked {
 impl PartialEq for Tracked {
     fn eq(&self, o: &Self) -> bool {
         self.tok == o.tok
+    }
+}
+/// a clone is a different payload object (its own serial, its own destructor run)
+impl Clone for Tracked {
+    fn clone(&self) -> Self {
+        Tracked::make(self.tok)
     }
 }
 impl Drop for Tracked {
@@ -67,6 +86,7 @@ impl Payload for Tracked {
     fn serial(&self) -> u64 {
         self.serial
     }
+    const TRACKED: bool = true;
 }
 
 /// A call of the public API, as written by the specification. Node arguments are
